@@ -97,7 +97,7 @@ ExtraCells(e)   == DrawnCells(e) \ CellsWith(e, {"T", "EITHER"})
 EitherCells(e)  == CellsWith(e, {"EITHER"}) \ CellsWith(e, {"T"})
 
 (* =============================== (3) totality ===================================== *)
-Archetypes == {"plain", "point-mass", "custom-state", "no-orientation", "uncertain", "defaults", "interval-sets",
+Archetypes == {"plain", "point-mass", "custom-state", "no-orientation", "uncertain-position", "uncertain-orientation", "defaults", "interval-sets",
                "goals", "goal-no-position", "signs-lights", "empty"}
 Windows    == {"before", "at-start", "inside", "point", "default", "after"}    \* relative to the horizons 1..4 of the archetypes
 WindowOf(w) == CASE w = "before" -> <<0, 0>> [] w = "at-start" -> <<0, 3>> [] w = "inside" -> <<2, 4>> [] w = "point" -> <<2, 2>>
